@@ -65,7 +65,7 @@ func TestC15Repro(t *testing.T) {
 		name string
 		cs   caseSpec
 	}{
-		{"txmon-hastx-answered-with-replynexttx", caseSpec{Scn: "txmon/HasTx", Fault: "other-admitted", Pos: 1, Variant: 0, LingerUs: 20000}},
+		{"txmon-hastx-answered-with-replynexttx", caseSpec{Scn: "txmon/HasTx", Fault: "not-admitted", Pos: 1, Variant: 0, LingerUs: 20000}},
 		{"txmon-surplus-replyhastx-then-getsizes", caseSpec{Scn: "txmon/GetSizes", Fault: "surplus", Pos: 0, Variant: 2, Cut: 1, LingerUs: 20000}},
 		{"peersharing-getpeers-peer-closes", caseSpec{Scn: "peersharing/GetPeers", Fault: "close", Pos: 0}},
 		{"peersharing-getpeers-local-close", caseSpec{Scn: "peersharing/GetPeers", Fault: "silence-close", Pos: 0, LingerUs: 20000, EndLocal: true}},
